@@ -476,7 +476,9 @@ func propC03(c *Ctx) {
 			lenIs("LastBlockHash", "32")
 			for _, f := range []string{"Sequence", "BridgeId", "OutputIndex"} {
 				f := f
-				need("msg."+f+" != 0", func(a *Term, pol bool) bool { return !pol && eqAtom(a, "msg."+f, "0") })
+				if !p.nonZeroOn(end, "msg."+f) {
+					o.Fail(c.W.Pos(v.Pos()), "Validate returns nil without msg."+f+" != 0", c.Dump(p, -1))
+				}
 			}
 			need("msg.Amount.IsValid()", func(a *Term, pol bool) bool {
 				return pol && a.Key() == "(sdk.Coin).IsValid(msg.Amount)"
